@@ -13,12 +13,7 @@ PROP = "C16"
 PROP_FILE = "theories/Props/C16.v"
 EXTRACT = ["theories/Extract/ExtractFmt.vo"]
 
-WITNESSES = {
-    "kf-c16-first-choice-trailing-comment": [("a = int / tstr", "a = int ; c1\n / tstr", [" c1"])],
-    "kf-c16-newlines-deleted-in-multi-choice-group": [("a = [ int, tstr // bool // nil ]", "a = [ int, ; c1\n tstr // bool // nil ]", [" c1"])],
-    "kf-c16-last-comment-of-second-group-choice": [("a = [ int // tstr ]", "a = [ int // tstr ; c1\n ]", [" c1"])],
-    "kf-c16-grpchoice-comment-dropped": [("a = [ int // tstr ]", "a = [ int //\n ; c1\n tstr ]", [" c1"])],
-}
+WITNESSES = base.C16_WITNESSES
 
 
 def lex_model(orc, texts):
@@ -98,12 +93,12 @@ def run(tier, seed):
         if fid in open_findings:
             res.known(open_findings[fid])
 
-    # ---- witnesses of the open findings
+    # ---- witnesses of the open findings; classifiers of repaired findings are switched off for this run
+    base.ACTIVE["rules"] = None
+    base.ACTIVE["hazards"] = None
+    probe = base.probe_comment_findings(drv)
     for fid, ws in WITNESSES.items():
-        b = roundtrips(drv, [w[0] for w in ws])
-        r = roundtrips(drv, [w[1] for w in ws])
-        failing = [w for w, bb, rr in zip(ws, b, r) if verdict(bb) == "ok" and comment_verdict(bb["s0"], w[2], rr) != "ok"
-                   and fid in [h for hs in hazards_of(rr).values() for h in hs]]
+        failing = probe[fid]
         evaluations += 2 * len(ws)
         if fid in open_findings:
             if failing:
@@ -116,7 +111,7 @@ def run(tier, seed):
 
     # ---- base documents (comment-free, passing C06's checks after neutralising C06's findings)
     g = Gen(rng, defects=0.0)
-    n_base = (150 if quick else 6000) * wide
+    n_base = (110 if quick else 1500) * wide
     shapes = []
     while len(shapes) < n_base:
         s = g.doc(nrules=rng.choice([1, 1, 2, 3]), depth=rng.choice([0, 1, 1, 2, 2]))
@@ -125,6 +120,13 @@ def run(tier, seed):
     base_rs = roundtrips(drv, [render_shape(s) for s in shapes])
     bases = [b for b in base_rs if verdict(b) == "ok"]
     evaluations += len(base_rs)
+    # a comment-free base document (C06's known-finding constructs already neutralised) whose formatted text is rejected or
+    # parses to other rules/choices/entries violates the last clause of C16 as well
+    bad_bases = [(s, b) for s, b in zip(shapes, base_rs) if verdict(b) in ("print-rejected", "shape-diff", "panic")]
+    for s, b in bad_bases[:3]:
+        t = render_shape(s)
+        res.violation("the formatted text of a comment-free document does not parse to the same rules, choices and entries (%s): %r prints as %r"
+                      % (verdict(b), t[:300], (b.get("p1") or "")[:300]), {"kind": "doc", "text": t, "comments": []})
 
     # ---- comment injection: one comment at EVERY inter-token gap, then random subsets
     cases = []          # (base shape, text, source comments, class)
@@ -188,7 +190,7 @@ def run(tier, seed):
         res.violation("%d further unexplained comment failures" % (len(unexplained) - 6), {"kind": "count"}, no_input=True)
 
     # ---- the lexical model against the real parser: source texts with comments and printed texts
-    lex_texts = [c[1] for c in cases if 'h"' not in c[1]][: (6000 if quick else 200000)] + [p for p in printed if 'h"' not in p][: (3000 if quick else 100000)]
+    lex_texts = [c[1] for c in cases if 'h"' not in c[1]][: (4000 if quick else 60000)] + [p for p in printed if 'h"' not in p][: (2000 if quick else 30000)]
     lex_texts += ["a = \"x;y\" ; c1\n", "a = 'x;y' ; c1\nb = h'01 ;in\n 02' ;c2", "a = b64'AQ ;x\nID' / \"\\\";\" ;c\n", ";only", "a = 1 ;c\r\nb = 2 ; d\re\n"]
     model_k = lex_model(orc, lex_texts)
     real_k = common.run_tool(drv, ["K\t" + t.encode("utf-8").hex() for t in lex_texts])
@@ -206,7 +208,7 @@ def run(tier, seed):
             lex_stats["agree"] += 1
 
     # ---- the merge model against the real attachment
-    m_texts = [c[1] for c in cases][: (4000 if quick else 100000)]
+    m_texts = [c[1] for c in cases][: (3000 if quick else 50000)]
     ml = merge_lines(drv, m_texts)
     m_or = common.run_tool(orc, [x[0] for x in ml if x is not None])
     it = iter(m_or)
